@@ -519,8 +519,15 @@ def insSorted (a : Nat) : List Nat → List Nat
 
 def sortNat (l : List Nat) : List Nat := l.foldr insSorted []
 
-/-- the heights that have a block record, ascending -/
-def recordHeights (w : Wallet) : List Nat := (sortNat (w.mined.map (·.height))).eraseDups
+/-- insertion into a strictly ascending list, an element already present is not inserted again -/
+def insUniq (a : Nat) : List Nat → List Nat
+  | [] => [a]
+  | b :: l => if a < b then a :: b :: l else if a = b then b :: l else b :: insUniq a l
+
+def heightsOf (l : List Nat) : List Nat := l.foldr insUniq []
+
+/-- the heights that have a block record, strictly ascending -/
+def recordHeights (w : Wallet) : List Nat := heightsOf (w.mined.map (·.height))
 
 def maxInt32 : Nat := 2147483647
 
@@ -542,5 +549,12 @@ def getTransactions (w : Wallet) (from_ to : Int) : TxsResult :=
                 else (hs.filter (fun h => decide (e ≤ h) && decide (h ≤ b))).reverse
   { mined := blocks.map fun h => (h, txsAt w h)
     unmined := if from_ < 0 ∨ to < 0 then sortNat (w.unmined.map (·.id)) else [] }
+
+/-- height `h` lies in the range of `GetTransactions(from, to)` (either direction; a negative bound = mempool height) -/
+def InRange (from_ to : Int) (h : Nat) : Prop :=
+  (rangeBound from_ ≤ h ∧ h ≤ rangeBound to) ∨ (rangeBound to ≤ h ∧ h ≤ rangeBound from_)
+
+/-- the block heights reported, in order -/
+def reportedHeights (w : Wallet) (from_ to : Int) : List Nat := (getTransactions w from_ to).mined.map (·.1)
 
 end SyncTip
